@@ -159,6 +159,33 @@ pub struct Verdict {
     pub findings: Vec<oracle::Finding>,
     pub handshake_ok: bool,
     pub all_complete: bool,
+    /// the bounded-fault liveness clause was not judged (see `path_declared_lost`)
+    pub path_declared_lost: bool,
+}
+
+/// The stack gives a path up after a number of consecutive probe timeouts without any reply ("Lost path
+/// state" after six) and, with a single path, fails the connection - long before the negotiated idle timeout.
+/// When a fault schedule that is bounded in time swallows that many consecutive datagrams of one endpoint,
+/// the bounded-fault liveness clause fails in this specific way; it gets its own signature so that it is
+/// distinguishable from a stall (a connection that neither progresses nor fails).
+fn path_declared_lost(out: &Outcome) -> bool {
+    let run_of_drops = |addr: std::net::SocketAddr| {
+        out.net.with(|n| {
+            let mut best = 0;
+            let mut cur = 0;
+            for e in n.sent.iter().filter(|e| e.src == addr) {
+                if matches!(e.fate, crate::sim::Fate::Drop(_)) {
+                    cur += 1;
+                    best = best.max(cur);
+                } else {
+                    cur = 0;
+                }
+            }
+            best
+        })
+    };
+    let lost = |term: &Option<String>, addr| term.as_deref() == Some("NoViablePath") && run_of_drops(addr) >= 5;
+    lost(&out.shared.client_term, crate::world::client_addr()) || lost(&out.shared.server_term, crate::world::server_addr())
 }
 
 pub fn evaluate(case: &Case, out: &Outcome) -> Verdict {
@@ -170,7 +197,22 @@ pub fn evaluate(case: &Case, out: &Outcome) -> Verdict {
     f.extend(pf);
     let hs = out.shared.handshake_ms.is_some();
     let all_complete = out.shared.jobs.iter().all(|j| j.complete());
-    if case.bounded_until_ms.is_some() {
+    let mut declared_lost = false;
+    if case.bounded_until_ms.is_some() && (!hs || !out.finished || !all_complete) && path_declared_lost(out) {
+        declared_lost = true;
+        f.push((
+            "liveness.bounded:path-declared-lost".into(),
+            format!(
+                "an endpoint gave the connection up (NoViablePath) after at least five of its datagrams in a row were dropped, although the faults end at {} ms and the idle timeouts are {} / {} ms [{}]; client_term={:?} server_term={:?}",
+                case.bounded_until_ms.unwrap(),
+                out.spec.params.idle_client_ms,
+                out.spec.params.idle_server_ms,
+                case.label,
+                out.shared.client_term,
+                out.shared.server_term
+            ),
+        ));
+    } else if case.bounded_until_ms.is_some() {
         if !hs {
             f.push(("liveness.bounded:handshake".into(), format!("handshake not complete {} ms (virtual) after the faults ended [{}]", out.spec.deadline.as_millis() as u64 - case.bounded_until_ms.unwrap(), case.label)));
         } else if !out.finished || !all_complete {
@@ -182,7 +224,7 @@ pub fn evaluate(case: &Case, out: &Outcome) -> Verdict {
         let pending: Vec<String> = out.shared.jobs.iter().enumerate().filter(|(_, j)| j.done_ms.is_none() && j.open_err.is_none()).map(|(i, j)| format!("#{i} {}", j.to_json())).take(3).collect();
         f.push((format!("failure.bounded:{class}"), format!("application futures still pending (or an application not told) {} ms (virtual) after the network failed for good [{}]; client_term={:?} server_term={:?}: {}", out.spec.deadline.as_millis() as u64 - case.tb_ms.unwrap_or(0), case.label, out.shared.client_term, out.shared.server_term, pending.join(" "))));
     }
-    Verdict { findings: f, handshake_ok: hs, all_complete }
+    Verdict { findings: f, handshake_ok: hs, all_complete, path_declared_lost: declared_lost }
 }
 
 pub fn observe(rep: &mut Report, case: &Case, out: &Outcome, v: &Verdict) {
@@ -204,6 +246,9 @@ pub fn observe(rep: &mut Report, case: &Case, out: &Outcome, v: &Verdict) {
     rep.add("qlog_packet_lost", pn.lost_events);
     if case.bounded_until_ms.is_some() {
         rep.count("bounded_scenarios");
+        if v.path_declared_lost {
+            rep.count("bounded_path_declared_lost_after_5_consecutive_drops");
+        }
         if v.handshake_ok {
             rep.count("bounded_handshakes_completed");
         }
